@@ -460,7 +460,9 @@ class Check:
             nviol += 1
             path = self._replay(dict(kind="violation", property=self.pid, signature=sig, **detail))
             lines.append(f"VIOLATION property={self.pid} replay={path}")
-        if not self.violations:
+        if True:
+            # a broken correspondence / proof is reported even when the monitor also found concrete
+            # violations (otherwise an unrelated finding would mask it)
             if self.corr_fail:
                 what, detail = self.corr_fail[0]
                 path = self._replay(
@@ -475,13 +477,13 @@ class Check:
                     )
                 )
                 nviol += 1
-                lines.append(f"VIOLATION property={self.pid} replay={path} no-failing-input-found")
+                lines.append(f"VIOLATION property={self.pid} replay={path}" + ("" if self.violations else " no-failing-input-found"))
             elif not proof["ok"]:
                 path = self._replay(
                     dict(kind="proof-broken", property=self.pid, failed=proof.get("failed"), theorems=proof.get("theorems", []), log=proof.get("log", "")[-3000:])
                 )
                 nviol += 1
-                lines.append(f"VIOLATION property={self.pid} replay={path} no-failing-input-found")
+                lines.append(f"VIOLATION property={self.pid} replay={path}" + ("" if self.violations else " no-failing-input-found"))
         wall = time.time() - self.t0
         nthm = len(proof.get("theorems", []))
         cov = dict(
